@@ -168,6 +168,11 @@ form('tpl-nested', { ops: ['tpl'] }, F => `\`a\${\`b\${${F.loc()}}\`}c\``)
 form('tpl-with-plus', { ops: ['tpl', '+'] }, F => `\`a\${${F.loc()} + ${F.f()}}c\``)
 form('tpl-obj-toprim-last', { ops: ['tpl'] }, F => `\`a\${${F.f()}}b\${${F.o()}}\``)
 form('tpl-bare-plus-then-effect', { ops: ['tpl'], kf: 'D6', cfg: 'TPL_ONLY' }, F => `\`\${${F.s()} + ${F.f()}}-\${${F.f()}}\``)
+// a template WITH substitutions as receiver of a configured method (it becomes a hook itself before the call is looked at),
+// arguments that need temporaries of their own
+form('tpl-receiver-concat-plus-arg', { ops: ['tpl', 'concat', '+'] }, F => `\`\${${F.s()}}:\`.concat(${F.s()} + ${F.f()})`)
+form('tpl-receiver-replace-method-args', { ops: ['tpl', 'replace', 'trim'] }, F => `\`\${${F.f()}}-\${${F.s()}}\`.replace(${F.f()}.trim(), ${F.s()})`)
+form('tpl-receiver-trim-then-concat-tpl-arg', { ops: ['tpl', 'trim', 'concat'] }, F => `\`\${${F.s()}} \`.trim().concat(\`\${${F.f()}}\`, ${F.f()})`)
 form('tpl-bare-seq-subst', { ops: ['tpl'] }, F => `\`\${${F.f()}, ${F.s()}}-\${${F.f()}}\``)
 form('tpl-nosubst', { ops: [], instr: false }, F => `\`plain${F.id()}\``)
 form('tpl-alias', { ops: ['tpl'] }, F => { const a = F.loc(); return `\`\${${a}}-\${(${a} = ${F.s()}, ${F.f()})}-\${${a}}\`` })
@@ -228,6 +233,14 @@ form('proto-apply-no-list', { ops: ['trim'] }, F => `String.prototype.trim.apply
 form('proto-apply-no-list-effect-this', { ops: ['toUpperCase'] }, F => `String.prototype.toUpperCase.apply(${F.f()})`)
 form('proto-apply-empty', { ops: ['trim'] }, F => `String.prototype.trim.apply(${F.loc()}, [])`)
 form('proto-apply-variable-args', { ops: ['concat'], kf: 'D19' }, F => `String.prototype.concat.apply(${F.loc()}, w.arr${F.id()})`)
+// (D19 family: a list that is not an array literal is not instrumented at all; canonical placement only)
+// argument lists that are not arrays: apply() takes array-likes, null and undefined - and refuses primitives - where a spread wants an iterable
+form('proto-apply-undefined-list', { ops: ['concat'], kf: 'D19' }, F => `String.prototype.concat.apply(${F.s()}, w.u${F.id()})`)
+form('proto-apply-null-list', { ops: ['concat'], kf: 'D19' }, F => `String.prototype.concat.apply(${F.f()}, w.n${F.id()})`)
+form('proto-apply-arraylike-list', { ops: ['concat'], kf: 'D19' }, F => `String.prototype.concat.apply(${F.s()}, { length: 2, 0: ${F.s()}, 1: ${F.f()} })`)
+form('proto-apply-set-list', { ops: ['concat'], kf: 'D19' }, F => `String.prototype.concat.apply(${F.s()}, new Set([${F.s()}]))`)
+form('proto-apply-string-list', { ops: ['concat'], kf: 'D19' }, F => `String.prototype.concat.apply(${F.s()}, ${F.s()})`)
+form('proto-apply-observed-list', { ops: ['concat'], kf: 'D19' }, F => `String.prototype.concat.apply(${F.s()}, w.o${F.id()})`)
 form('proto-apply-hole', { ops: ['concat'] }, F => `String.prototype.concat.apply(${F.loc()}, [${F.f()}, , ${F.lit()}])`)
 form('proto-call-spread-this', { ops: ['concat'], nodemand: true }, F => `String.prototype.concat.call(...w.it${F.id()})`)
 // a prototype call that is NOT instrumented (literal this, literal arguments) inside a file that IS printed (the `+` around it is instrumented)
